@@ -33,6 +33,20 @@ Deviations from the DESIGN plan (reality required them):
   `open('<string>', 'rb')` to quote the offending source line.  That audit event has a
   constant argument that no input controls; it is counted (`tokenizer_open_<string>`) and
   reported, not alarmed on (switch TOKENIZER_OPEN_IS_VIOLATION).
+* DESIGN's mutant '"unary": 2 -> 4' is equivalent on this language (a '**' never yields to the
+  pending operator, whatever its priority); pint's own "unclosed parentheses" test is dead code
+  because Python's tokenizer already refuses EOF inside a parenthesis.
+
+Mismatches are attributed by experiment before they are reported, so that the classifier
+fields name a mechanism and not a symptom:
+* `group-glued-to-operand-is-multiplied-before-neighbouring-operators` — the string contains
+  `X(` with no blank and inserting a blank before every such '(' makes pint agree with the tree
+  (fields: the unfinished operator left of X, whether a power operator follows the group);
+* `unary-minus-evaluated-as-multiplication-by-minus-one` — pint's value equals the tree
+  evaluated with `x * -1` in place of `-x` (differs only in the sign of a Decimal zero);
+* `separated-plus-slash-minus-read-as-uncertainty-operator` — a damaged string in which '+',
+  '/', '-' are separate tokens (not the contiguous '+/-') still evaluates as an uncertainty;
+* everything else: `parse-differs-from-tree` with style, features, root operator, adjacency.
 """
 from __future__ import annotations
 
